@@ -340,6 +340,14 @@ def oracle_c05(rr: Any, spec: Dict[str, Any]) -> List[Violation]:
                 v.append(Violation("returned-before-drain", f"listen() returned at t={R} while deliveries {undone[:5]} were unfinished (no wait_tasks_timeout)"))
             elif R < S_t + W - 1e-9:
                 v.append(Violation("returned-before-drain", f"listen() returned at t={R} < S+W={S_t + W} with unfinished deliveries {undone[:5]}"))
+        # no accepted task function is still running (unless the wait timeout allowed the return)
+        if W is None or R < S_t + W - 1e-9:
+            for d in accepted:
+                ts_ = first(per[d], "task_start")
+                te_ = [e for e in per[d] if e["k"] == "task_end"]
+                if ts_ is not None and ts_["i"] < ret_i and (not te_ or te_[-1]["i"] > ret_i) and d not in undone:
+                    v.append(Violation("returned-while-function-running", f"listen() returned at t={R} while the task function of delivery {d} was still running (it started at t={ts_['t']})"))
+                    break
         # acks complete for finished ackable deliveries
         for d in accepted:
             if d in exit_t and d not in undone:
@@ -557,6 +565,12 @@ def oracle_c07(rr: Any, spec: Dict[str, Any]) -> "tuple[List[Violation], int]":
                     v.append(Violation("timeout-early", f"delivery {d}: cancelled although duration {dur} < timeout {timeout}"))
                 if not res.is_err or not isinstance(res.error, TimeoutError):
                     v.append(Violation("timeout-result-wrong", f"delivery {d}: timed out but stored is_err={res.is_err}, error={res.error!r}"))
+    # the bundled in-memory backend (bounded store): whatever it evicts, the result saved last is there
+    stock = getattr(rr.sc, "stock_backend", None)
+    last = getattr(rr.sc, "stock_last", None)
+    if stock is not None and last is not None:
+        if stock.results.get(last[0]) is not last[1]:
+            v.append(Violation("stored-result-lost", f"InmemoryResultBackend(max_stored_results={stock.max_stored_results}): the result saved last (task id {last[0]}) is not in the store; it holds {list(stock.results)}"))
     # backend failures never block: all callbacks of yielded valid deliveries ended
     if rr.outcome == "returned":
         for info in rr.sc.deliveries:
@@ -624,6 +638,7 @@ def oracle_c10(rr: Any, spec: Dict[str, Any]) -> "tuple[List[Violation], int]":
             tok = e.get("tok") or e.get("task_id")
             sends[tok].append(e)
     via2 = {c["tok"] for c in spec.get("client_sends", []) if c.get("via_broker2")}
+    unencodable = {c["tok"] for c in spec.get("client_sends", []) if c.get("bad_arg")}
     mws2 = spec.get("mws2", [])
     for tok, evs in sends.items():
         if first(evs, "send_begin") is None:
@@ -637,6 +652,15 @@ def oracle_c10(rr: Any, spec: Dict[str, Any]) -> "tuple[List[Violation], int]":
             want += [("mw:post_send", 100 + j) for j, m in enumerate(mws2) if "post_send" in m]
             if seq != want:
                 v.append(Violation("client-hook-order", f"send {tok} via with_broker(): observed {seq}, expected {want}"))
+            continue
+        if tok in unencodable:
+            # the send fails while the message is encoded: hooks before the send ran, the broker saw nothing
+            want = [("mw:pre_send", i) for i in overriding("pre_send")]
+            if seq != want:
+                v.append(Violation("client-hook-order", f"send {tok} (un-encodable argument): observed {seq}, expected {want}"))
+            se = first(evs, "send_err")
+            if se is None or not se.get("is_send_error"):
+                v.append(Violation("send-error-type", f"send {tok}: encoding failure surfaced as {se and se.get('exc')}, not a SendTaskError"))
             continue
         want = [("mw:pre_send", i) for i in overriding("pre_send")] + [("kick", None)]
         if not failed:
